@@ -47,9 +47,21 @@ def run(repo: Repo, rep: Report, tier: str) -> None:
         if lf.kind == "global" and lf.text == "AVAILABLE_VIRTUAL_SIGNALS":
             src_ok = True
     rep.check(src_ok, "C13-R1", "pool is drawn from AVAILABLE_VIRTUAL_SIGNALS", norm(ret)[:90], pool_fn.loc(rets[-1]))
+    # an exclusion operand that is a module-level constant of the analyzer's module counts with its value (`_NEVER = RESERVED | WILDCARD`)
+    excl_values: set[str] = set()
+    for en in sorted(excl_names):
+        if en.isidentifier():
+            for modx in (pool_fn.module, sigmod):
+                try:
+                    val = module_const(repo, modx, en)
+                except Exception:
+                    continue
+                if isinstance(val, (set, frozenset, list, tuple)):
+                    excl_values |= {x for x in val if isinstance(x, str)}
+                break
     for label, table, name in (("reserved", RESERVED, "RESERVED_SIGNALS"), ("wildcard", WILD, "WILDCARD_SIGNALS")):
         overlap = sorted(set(AVAILABLE) & table)
-        ok = not overlap or name in excl_names
+        ok = not overlap or name in excl_names or set(overlap) <= excl_values
         rep.check(ok, "C13-R1", f"{label} signals cannot be allocated",
                   (f"list contains {overlap}; exclusion set includes {name}" if overlap else "list contains none of them") if ok else
                   f"AVAILABLE_VIRTUAL_SIGNALS contains {overlap} and the exclusion set ({sorted(excl_names)}) does not include {name}: an untyped value can be given {overlap[0]}",
